@@ -141,7 +141,61 @@ def _staged(cfg, labels, cells, dtype):
     return c
 
 
+class _M(__import__('fsic').BaseModel):
+    ENDOGENOUS = ['X']
+    EXOGENOUS = ['W']
+    NAMES = ENDOGENOUS + EXOGENOUS
+    CHECK = ENDOGENOUS
+
+
+def meta_scenario(cfg, src) -> List[str]:
+    """Label access to the variables a MODEL keeps beside its equation variables (`status`, `iterations`: in `index`, not in
+    `names`): get / set by label and by label slice address exactly the labelled positions, absent labels raise."""
+    n = cfg['n']
+    labels = _labels(cfg, src)
+    m = _M(_span(cfg, labels))
+    bad: List[str] = []
+    a, b = _req(cfg, 'a', src), _req(cfg, 'b', src)
+    for var, val, blank in (('status', 'F', '-'), ('iterations', 7, -1)):
+        before = list(m[var])
+        if cfg['op'] == 'meta_set':
+            r = _run(lambda: m.__setitem__((var, a), val))
+            p = _first(labels, a)
+            want = list(before)
+            if p is None:
+                if r != ('exc', 'KeyError'):
+                    bad.append(f'{var}: absent label on write: expected KeyError, got {r}')
+            else:
+                want[p] = val
+                if r[0] != 'ret':
+                    bad.append(f'{var}: write at label position {p}: {r}')
+            if [x for x in m[var]] != want:
+                bad.append(f'{var} after write by label: {list(m[var])} != {want}')
+            g = _run(lambda: m[var, a])
+            if p is not None and (g[0] != 'ret' or g[1] != want[p]):
+                bad.append(f'{var}: read back by label gives {g}')
+        else:
+            pa = 0 if a is None else _first(labels, a)
+            pb = n - 1 if b is None else _first(labels, b)
+            r = _run(lambda: m.__setitem__((var, slice(a, b)), val))
+            want = list(before)
+            if pa is None or pb is None:
+                if r != ('exc', 'KeyError'):
+                    bad.append(f'{var}: absent slice label on write: expected KeyError, got {r}')
+            else:
+                for j in range(pa, pb + 1):
+                    want[j] = val
+                if r[0] != 'ret':
+                    bad.append(f'{var}: slice write over positions {pa}..{pb}: {r}')
+            if [x for x in m[var]] != want:
+                bad.append(f'{var} after slice write: {list(m[var])} != {want}')
+        m[var] = blank
+    return bad
+
+
 def scenario(cfg, src, symbolic: bool) -> List[str]:
+    if cfg['op'] in ('meta_set', 'meta_setslice'):
+        return meta_scenario(cfg, src)
     n, op = cfg['n'], cfg['op']
     labels = _labels(cfg, src)
     dtype = object if symbolic else float
@@ -342,6 +396,16 @@ def configs(tier: str):
                 for b in labs[1::2] + ['none']:
                     out.append(cfg10(span=span, n=n, op='getslice', a=a, b=b, step='sym' if n > 1 else 'none'))
                     out.append(cfg10(span=span, n=n, op='setslice', a=a, b=b))
+    # a model's status / iterations by label and label slice (symbolic labels on list spans, concrete ones elsewhere)
+    for span in ('list_sym', 'range', 'nd_int', 'list_str'):
+        for n in (1, 2, 3):
+            sym = span == 'list_sym'
+            labs = _labels(cfg10(span=span, n=n), SymSrc())
+            extra = 'zz' if span == 'list_str' else 1980
+            for a in (['sym'] if sym else list(labs) + [extra]):
+                out.append(cfg10(span=span, n=n, op='meta_set', a=a))
+            for a, b in ([('sym', 'sym'), ('none', 'sym'), ('sym', 'none')] if sym else [(labs[0], labs[-1]), ('none', labs[0]), (labs[-1], 'none'), ('none', 'none'), (extra, 'none')]):
+                out.append(cfg10(span=span, n=n, op='meta_setslice', a=a, b=b))
     # HISTORIES: the container was shorter / was read / was copied before (nothing remembered from then may matter)
     for stage in ('grown', 'copy', 'rebind'):
         for span in ('list_sym', 'range', 'nd_int', 'range_step', 'list_str', 'nd_str'):
